@@ -78,13 +78,15 @@ pub fn offer(ctx: &mut Ctx, raw: &MPos, tag: &str, f: &mut PosFn) -> bool {
     if ctx.miri_full() {
         return false;
     }
-    let mp = raw.normalized();
-    if !mp.is_valid() {
+    // validity is judged on the raw input (normalisation never changes it); the board is built by
+    // the library from the *un-normalised* input, and the monitors go on with what the library made
+    // of it. Where that differs from the model's normalisation it is C11's business (counted here).
+    if !raw.is_valid() {
         ctx.feature("src_invalid_skipped");
         return false;
     }
-    let case = format!("pos:{}", to_xfen(&mp));
-    let board = match ctx.guard("try_from", &case, || to_board(&mp)) {
+    let rcase = format!("raw:{}", to_xfen(raw));
+    let board = match ctx.guard("try_from", &rcase, || to_board(raw)) {
         Some(Ok(b)) => b,
         Some(Err(_)) => {
             ctx.feature("validation_disagreement_skipped");
@@ -92,10 +94,14 @@ pub fn offer(ctx: &mut Ctx, raw: &MPos, tag: &str, f: &mut PosFn) -> bool {
         }
         None => return false,
     };
-    if from_raw(board.raw()) != mp {
-        ctx.feature("normalisation_disagreement_skipped");
-        return false;
+    let mp = from_raw(board.raw());
+    if mp != raw.normalized() {
+        ctx.feature("normalisation_disagreement_seen");
+        if !mp.is_valid() {
+            return false;
+        }
     }
+    let case = format!("pos:{}", to_xfen(&mp));
     ctx.begin_case(&case);
     ctx.feature(&format!("src_{}", tag));
     f(ctx, &mp, &board);
@@ -136,7 +142,8 @@ pub fn run(ctx: &mut Ctx, src: &Sources, f: &mut PosFn) {
     }
 
     type Fam = fn(&mut crate::rng::Rng) -> MPos;
-    let fams: [(&str, Fam); 8] = [
+    let fams: [(&str, Fam); 9] = [
+        ("fam_odd_marks", gen::fam_odd_marks),
         ("fam_ep_stalemate", gen::fam_ep_stalemate),
         ("fam_enpassant", gen::fam_enpassant),
         ("fam_pin", gen::fam_pin),
